@@ -192,8 +192,8 @@ Print Assumptions C13_nonvacuous_proofs.
 (* the fragment is inhabited by a real schedule: two tries that share nodes are
    committed and referenced, the first is dereferenced; its private nodes are
    collected, the shared ones stay *)
-Definition ex_t1 : node := run [KUpdate [17;17] (repeat 65 40); KUpdate [17;34] (repeat 66 40); KUpdate [51] (repeat 67 40)].
-Definition ex_t2 : node := t_update ex_t1 [51] (repeat 68 40).
+Definition ex_t1 : node := run [KUpdate [17] (repeat 65 40); KUpdate [34] (repeat 66 40)].
+Definition ex_t2 : node := t_update ex_t1 [34] (repeat 68 40).
 Definition ex_fops : list fop :=
   map (fun p => FInsert (fst p) (snd p)) (commit keccak256 ex_t1) ++ [FRef (root_hash keccak256 ex_t1)] ++
   map (fun p => FInsert (fst p) (snd p)) (commit keccak256 ex_t2) ++ [FRef (root_hash keccak256 ex_t2)] ++
@@ -208,7 +208,7 @@ Proof. vm_compute. reflexivity. Qed.
 Example C13_nonvacuous_gc :
   frag_reach ex_state /\
   (ext_get (db_meta ex_state) (root_hash keccak256 ex_t2) = 1 /\ ext_get (db_meta ex_state) (root_hash keccak256 ex_t1) = 0 /\
-   length (commit keccak256 ex_t1) = 6%nat /\ length (db_nodes ex_state) = 6%nat /\
+   length (commit keccak256 ex_t1) = 3%nat /\ length (db_nodes ex_state) = 3%nat /\
    forallb (fun p => existsb (list_eqb (fst p)) (hashes (db_nodes ex_state))) (commit keccak256 ex_t2) = true /\
    existsb (list_eqb (root_hash keccak256 ex_t1)) (hashes (db_nodes ex_state)) = false).
 Proof.
